@@ -130,7 +130,7 @@ type mop struct {
 	IsDelete bool
 	Order    []string
 	// merge classification
-	Empty      bool  // compaction with an empty result: only the parents are deleted
+	Empty      bool // compaction with an empty result: only the parents are deleted
 	Parents    []int
 	MixedMerge bool
 	RenameHit  int // index (in the semantic-hit sequence) of this op's BlkRename, -1 if none
